@@ -2,15 +2,16 @@
   C08 — threaded compression is correct, ordered and live under every schedule.
   Theorems about the labelled transition system `XzVerif.MtEnc` (Model/MtEnc.lean): all of them quantify over every state
   reachable by ANY interleaving of main-thread and worker steps (= every schedule, every spurious wake-up, every time-out).
-  Helper lemmas are in Lemmas/MtEncA..H.lean.
+  Helper lemmas are in Lemmas/MtEncA..I.lean.
 -/
-import XzVerif.Lemmas.MtEncH
+import XzVerif.Lemmas.MtEncI
 
 namespace XzVerif.C08
 open XzVerif.MtEnc
 
 /-- The invariant: entry-local facts (A), queue structure (B), ghost data / output bytes (C), worker states vs. main (W),
-    main-thread program-counter facts (M), exact accounting of the progress counters on healthy streams (P). -/
+    main-thread program-counter facts (M), exact accounting of the progress counters on healthy streams (P),
+    where Blocks are cut (K). -/
 structure Inv (P : Params) (s : St) : Prop where
   a : InvA P s
   b : InvB s
@@ -18,9 +19,10 @@ structure Inv (P : Params) (s : St) : Prop where
   w : InvW s
   m : InvM s
   p : InvP P s
+  k : InvK s
 
 theorem inv_init (P : Params) (c : Cfg) (h1 : 0 < c.bs) (h2 : 0 < c.tmax) : Inv P (initSt c P) := by
-  refine ⟨?_, InvB_init h1 h2 .out (Or.inl rfl), InvC_init P c .out, ?_, ?_, InvP_init P c .out⟩
+  refine ⟨?_, InvB_init h1 h2 .out (Or.inl rfl), InvC_init P c .out, ?_, ?_, InvP_init P c .out, InvK_init P c .out⟩
   · intro e he; simp [initSt] at he
   · exact ⟨by intro e he; simp [initSt] at he, by simp [initSt, busy], by simp [initSt]⟩
   · refine ⟨(by intro a; cases a), (by intro a; cases a), (by intro a; rcases a with a | a <;> cases a), (by intro a; cases a),
@@ -29,7 +31,7 @@ theorem inv_init (P : Params) (c : Cfg) (h1 : 0 < c.bs) (h2 : 0 < c.tmax) : Inv 
 
 theorem inv_step {P : Params} {s s' : St} {e : Ev} (h : Inv P s) (hs : step P s e = some s') : Inv P s' :=
   ⟨InvA_step h.a h.b hs, InvB_step h.b h.a hs, InvC_step h.c h.a h.b hs, InvW_step h.w h.a hs, InvM_step h.m h.b h.w hs,
-   InvP_step h.p h.a h.b h.w hs⟩
+   InvP_step h.p h.a h.b h.w hs, InvK_step h.k h.a h.b h.c h.m hs⟩
 
 /-- **mtenc_inv**: the invariant holds initially and is preserved by every transition, hence in every reachable state. -/
 theorem mtenc_inv {P : Params} {c : Cfg} (h1 : 0 < c.bs) (h2 : 0 < c.tmax) {s : St} (hr : Reachable P c s) : Inv P s := by
@@ -73,6 +75,60 @@ theorem mtenc_output_decodes {P : Params} {c : Cfg} (h1 : 0 < c.bs) (h2 : 0 < c.
   apply List.map_congr_left
   intro b _
   simp [Blk.enc, hdec]
+
+/-- **mtenc_cuts** (second half of mtenc_output): Blocks are cut only at block_size and at offsets at which a
+    FULL_FLUSH / FULL_BARRIER / FINISH request took effect (`flushPts`, a function of the application's calls only), every
+    closed Block is non-empty, and every such offset is a Block boundary. -/
+theorem mtenc_cuts {P : Params} {c : Cfg} (h1 : 0 < c.bs) (h2 : 0 < c.tmax) {s : St} (hr : Reachable P c s) :
+    cutsOk s.cfg.bs s.flushPts (allShape s) 0 ∧ (∀ f ∈ s.flushPts, f ∈ closedEnds (allShape s) 0) :=
+  let h := (mtenc_inv h1 h2 hr).k
+  ⟨h.cuts, h.flush⟩
+
+theorem flatten_eq_of_lengths : ∀ (a b : List Bytes), a.flatten = b.flatten → a.map List.length = b.map List.length → a = b
+  | [], [], _, _ => rfl
+  | [], _ :: _, _, h => by simp at h
+  | _ :: _, [], _, h => by simp at h
+  | x :: xs, y :: ys, hf, hl => by
+    simp only [List.map_cons, List.cons.injEq] at hl
+    simp only [List.flatten_cons] at hf
+    have hxy : x = y := by
+      have := congrArg (List.take x.length) hf
+      rw [List.take_left' rfl, hl.1, List.take_left' rfl] at this
+      exact this
+    subst hxy
+    rw [flatten_eq_of_lengths xs ys (List.append_cancel_left hf) hl.2]
+
+/-- **Determinism w.r.t. thread count and schedule** (used by C06): two finished runs — any parameters, any thread counts, any
+    schedules — that consumed the same input with the same block_size and the same flush offsets produced the same list of
+    Blocks (same cut points, same data per Block, in the same order). -/
+theorem mtenc_deterministic {P1 P2 : Params} {c1 c2 : Cfg} (a1 : 0 < c1.bs) (a2 : 0 < c1.tmax) (b1 : 0 < c2.bs) (b2 : 0 < c2.tmax)
+    {s1 s2 : St} (hr1 : Reachable P1 c1 s1) (hr2 : Reachable P2 c2 s2) (he1 : s1.seq = .ended) (he2 : s2.seq = .ended)
+    (hbs : s1.cfg.bs = s2.cfg.bs) (hF : s1.flushPts = s2.flushPts) (hin : s1.consumed = s2.consumed) :
+    s1.done.map (·.data) = s2.done.map (·.data) := by
+  have i1 := mtenc_inv a1 a2 hr1
+  have i2 := mtenc_inv b1 b2 hr2
+  have q1 := (i1.b.seqTail (Or.inr he1)).1
+  have q2 := (i2.b.seqTail (Or.inr he2)).1
+  have sh1 : allShape s1 = (s1.done.map fun b => b.data.length).map fun l => (true, l) := by
+    simp [allShape, q1, shape, doneShape, List.map_map, Function.comp_def]
+  have sh2 : allShape s2 = (s2.done.map fun b => b.data.length).map fun l => (true, l) := by
+    simp [allShape, q2, shape, doneShape, List.map_map, Function.comp_def]
+  have d1 : datas s1.done = s1.consumed := by rw [i1.c.cons, q1]; simp [blks, datas]
+  have d2 : datas s2.done = s2.consumed := by rw [i2.c.cons, q2]; simp [blks, datas]
+  have sum1 : (s1.done.map fun b => b.data.length).sum = s1.consumed.length := by
+    rw [← d1, datas_length]; rfl
+  have sum2 : (s2.done.map fun b => b.data.length).sum = s2.consumed.length := by
+    rw [← d2, datas_length]; rfl
+  have lens : (s1.done.map fun b => b.data.length) = (s2.done.map fun b => b.data.length) := by
+    refine cuts_unique s1.cfg.bs s1.flushPts _ _ 0 (by rw [sum1, sum2, hin]) ⟨?_, ?_⟩ ⟨?_, ?_⟩
+    · rw [← sh1]; exact i1.k.cuts
+    · intro f hf _ _; rw [← sh1]; exact i1.k.flush f hf
+    · rw [← sh2, hbs, hF]; exact i2.k.cuts
+    · intro f hf _ _; rw [← sh2]; rw [hF] at hf; exact i2.k.flush f hf
+  apply flatten_eq_of_lengths
+  · show datas s1.done = datas s2.done
+    rw [d1, d2, hin]
+  · simpa [List.map_map, Function.comp_def] using lens
 
 /-- **mtenc_full_flush**: LZMA_FULL_FLUSH returns LZMA_STREAM_END only when the queue is empty, no Block is open, all input
     given so far is contained in delivered (finished) Blocks, and the output so far is header ++ exactly these Blocks. -/
@@ -263,5 +319,27 @@ example : (run exP (initSt exCfg exP) exTrace4).map
 example : (run exP (initSt exCfg exP) (exTrace4 ++ [.call [] 100 .finish, .mRead, .mEncIn])).map
     (fun s => s.outq.map fun e => e.wk.map fun w => (w.pc, w.asleep, w.woken, needsRun e w)) = some [some (.enc, true, true, true)] := by
   decide +kernel
+
+
+-- ---------------------------------------------------------------------------------------------------------------------
+-- the original re-init protocol (xz 5.8.1): the two schedule-dependent defects are reachable (watch item F5, finding F7)
+-- ---------------------------------------------------------------------------------------------------------------------
+
+/-- Lost worker: a Block is handed over, the application re-initialises before the worker has noticed; the worker maps
+    STOP -> IDLE at the top of worker_start(), threads_stop() is satisfied, and the worker is neither busy nor on threads_free. -/
+example : OldReinit.run {} [.assign, .stopSignal, .wTop, .stopWaitDone] =
+    some { state := .idle, pc := .top, inFree := false, newStream := true } := by decide
+
+/-- ... and it stays lost: no transition of the worker or of the main thread puts it back (with one thread: deadlock). -/
+theorem oldReinit_lost_forever (s : OldReinit.S) (e : OldReinit.E) (s' : OldReinit.S)
+    (h1 : s.pc = .top) (h2 : s.state = .idle) (h3 : s.inFree = false) (h4 : s.stopping = false) (h5 : s.newStream = true)
+    (hs : OldReinit.step s e = some s') :
+    s'.pc = .top ∧ s'.state = .idle ∧ s'.inFree = false ∧ s'.stopping = false ∧ s'.newStream = true := by
+  cases e <;> simp [OldReinit.step, h1, h2, h3, h4, h5] at hs
+
+/-- Stale progress (F5): the stopped worker marks itself idle, the main thread resets `coder->progress_out` for the new Stream,
+    and only then the worker adds its old `out_pos`: the new Stream reports 12 + 116 bytes although it has produced nothing. -/
+example : (OldReinit.run {} [.assign, .wTop, .stopSignal, .wJob, .wMarkIdle, .stopWaitDone, .wTail]).map
+    (fun s => (s.newStream, s.coderProgOut)) = some (true, 128) := by decide
 
 end XzVerif.C08
